@@ -45,3 +45,29 @@ Definition go_load_ptr (v : gval) : gval := v.
 Definition go_slice_both {A} (site : string) (l : list A) (a b : Z) : res (list A) :=
   if ((a <? 0) || (b <? a) || (go_len l <? b))%Z then Panic site
   else Ok (firstn (Z.to_nat (b - a)) (skipn (Z.to_nat a) l)).
+
+(** ** package time
+    A [time.Time] travels as (Unix seconds, nanosecond within the second); the
+    location is always UTC (every time the codecs build is [.UTC()]), so [UTC]
+    is the identity.  Trusted: that these say what the methods of package time
+    return (the correspondence samples them: zero time, pre-1970, year > 9999,
+    sub-microsecond values).
+    - [time.Unix(sec, nsec)] normalises nsec into [0, 1e9) carrying into sec,
+      int64 arithmetic wrapping;
+    - [time.UnixMicro(usec)] is [Unix(usec/1e6, (usec%1e6)*1e3)]: Go truncates
+      where Coq floors, the normalisation of [Unix] makes the results equal;
+    - [t.UnixMicro()] is sec*1e6 + nsec/1e3 in int64 arithmetic;
+    - the zero [time.Time] is January 1, year 1: Unix second -62135596800. *)
+Definition gtime := (Z * Z)%type.
+Definition go_time_zero : gtime := (Codec.zero_sec, 0%Z).
+Definition go_time_Unix_ (t : gtime) : Z := fst t.
+Definition go_time_Nanosecond_ (t : gtime) : Z := snd t.
+Definition go_time_IsZero_ (t : gtime) : bool := ((fst t =? Codec.zero_sec) && (snd t =? 0))%Z.
+Definition go_time_UnixMicro_ (t : gtime) : Z := s2s 64 (Codec.unix_micro (fst t) (snd t)).
+Definition go_time_Unix (sec nsec : Z) : gtime :=
+  (Codec.s64z (sec + nsec / 1000000000), (nsec mod 1000000000)%Z).
+Definition go_time_UnixMicro (usec : Z) : gtime :=
+  go_time_Unix (usec / 1000000) ((usec mod 1000000) * 1000).
+
+(** a package-level variable initialised by a call: its value once the program runs *)
+Definition go_init {A} (d : A) (r : res A) : A := match r with Ok a => a | _ => d end.
